@@ -40,6 +40,8 @@ pub fn dry_of(case: &BuildCase) -> BuildCase {
     c.plan.sticky = None;
     c.plan.crash = None;
     c.plan.flips.clear();
+    c.plan.fault_write = None;
+    c.plan.fault_flush = None;
     for w in c.plan.writes.iter_mut() {
         if matches!(w, WStep::Err(_) | WStep::Zero) {
             *w = WStep::Full;
@@ -139,7 +141,23 @@ pub fn exec(prop: &str, case: &Case) -> Outcome {
         }
         ("C11", Case::Build(bc)) => {
             let run = run_build(bc);
-            let dry = run_build(&dry_of(bc));
+            // the fault-free twin is the same for every fault position of a
+            // workload: keep the last one per thread
+            thread_local! {
+                static DRY: std::cell::RefCell<Option<(BuildCase, std::rc::Rc<crate::build::BuildRun>)>> = std::cell::RefCell::new(None);
+            }
+            let dry_case = dry_of(bc);
+            let dry = DRY.with(|d| {
+                let mut d = d.borrow_mut();
+                match &*d {
+                    Some((c, r)) if *c == dry_case => r.clone(),
+                    _ => {
+                        let r = std::rc::Rc::new(run_build(&dry_case));
+                        *d = Some((dry_case.clone(), r.clone()));
+                        r
+                    }
+                }
+            });
             let violation = check_c11(bc, &run, &dry);
             let mut tags = sink_tags(&run, bc);
             let fired = run.sink.first_fault_event.is_some();
@@ -159,6 +177,39 @@ pub fn exec(prop: &str, case: &Case) -> Outcome {
             Outcome {
                 digest: run.digest(),
                 nontrivial: fired,
+                violation,
+                explicit: Case::Build(explicit_build(bc, run.sink.recorded_plan())),
+                tags,
+                steps,
+                detail: serde_json::Value::Null,
+            }
+        }
+        ("C08", Case::Build(bc)) => {
+            // A(i) through a non-trivial sink: whatever a builder reports as
+            // finished must carry the standard checksum and verify.
+            let run = run_build(bc);
+            let mut violation = None;
+            if let Some(crate::front::Res::Ok) = run.finish_result() {
+                let bytes = &run.sink.durable[run.sink.prefill..run.durable_at_return.max(run.sink.prefill)];
+                violation = check_footer("C08", bytes).or_else(|| {
+                    let p = crate::restart::probe(bytes);
+                    if p.verify_ok != Some(true) {
+                        Some(Violation {
+                            oracle: "C08.A1.finished_build_does_not_verify".into(),
+                            observed: format!("{} {} {}", p.open_err, p.verify_err, p.panic.unwrap_or_default()),
+                        })
+                    } else {
+                        None
+                    }
+                });
+            }
+            let f = &run.sink.fired;
+            let nontrivial = f.short + f.intr > 0 || bc.bufcap.is_some();
+            let tags = sink_tags(&run, bc);
+            let steps = run.results.len() as u64 + run.sink.ev_idx;
+            Outcome {
+                digest: run.digest(),
+                nontrivial,
                 violation,
                 explicit: Case::Build(explicit_build(bc, run.sink.recorded_plan())),
                 tags,
